@@ -9,6 +9,8 @@ Extraction "C20_model.ml" wire_anchor
   idx_expand tuple_eq_m tuple_ne_m tuple_swap_m apply_m make_from_tuple_m tuple_cat_m tuple_cat_t_m
   cat_result_kind_m cat_single_nested_arity_m
   run_m init_state destroy_all live_m swap_unchecked_m
+  pair_traits_m tuple_traits_m refwrap_ops_m fref_ops_m notfn_static_m ret_decltype_auto
+  pair_traits_spec tuple_traits_spec refwrap_ops_spec fref_ops_spec notfn_static_spec
   get_spec forward_spec forward_like_spec invoke_pmf_spec invoke_pmd_spec invoke_fo_spec ipf_call_spec
   fref_call_spec refwrap_call_spec notfn_call_spec bindfront_call_spec apply_cats_spec get_all_spec pair_assign_spec
   cat_result_kind_spec cat_single_nested_arity_spec tuple_cat_t_spec tuple_cat_spec
